@@ -74,6 +74,8 @@ def ext_constant(I, e, dotted):
 @model("numpy.asarray", "numpy.asanyarray", "numpy.ascontiguousarray")
 def m_asarray(I, e, args, kws):
     x = args[0]
+    if x.tag("kind") == "pintq" and not x.tag("pint_converted") and not x.tag("physical_constant"):
+        I.emit("raw_magnitude", e, of=x)       # np.asarray(quantity) strips the unit (UnitStrippedWarning): the bare number in whatever unit
     if x.items is not None or x.tag("kind") == "list":
         return m_array(I, e, args, kws)
     out = x.copy(term=mk_term("asarray", x.term))
@@ -243,6 +245,26 @@ def m_eye(I, e, args, kws):
     d = as_dim(n)
     out = Val(shp=n.flat().data | n.flat().shp, ctrl=n.flat().ctrl, shape=Shape([d, d]), unit=ONE, sign="NONNEG",
               fresh="FRESH", tags={"kind": "ndarray", "ndim": 2, "eye": d})
+    return out
+
+
+@model("numpy.pad")
+def m_pad(I, e, args, kws):
+    """np.pad(x, pad_width): zero rows before / after along the first axis"""
+    x = args[0]
+    out = mk([x] + args[1:], fresh="FRESH", unit=x.unit, sign=x.sign, tags={"kind": "ndarray", "notstr": True})
+    out.frame = x.frame
+    if x.shape is not None:
+        out.shape = Shape((None,) + tuple(x.shape.axes[1:]), x.shape.ell) if x.shape.axes else None
+    first = None
+    if len(e.args) > 1:
+        for n_ in ast.walk(e.args[1]):
+            if isinstance(n_, ast.Tuple) and len(n_.elts) == 2 and not any(isinstance(k_, (ast.Tuple, ast.List)) for k_ in n_.elts):
+                if first is None or (n_.lineno, n_.col_offset) < (first.lineno, first.col_offset):
+                    first = n_
+    if first is not None:
+        before, after = I.ev(first.elts[0]), I.ev(first.elts[1])
+        I.emit("np_pad", e, arr=x, before=before, after=after, result=out)
     return out
 
 
@@ -1574,7 +1596,7 @@ def m_pca(I, e, args, kws):
 def m_interp1d(I, e, args, kws):
     out = mk(args + list(kws.values()), tags={"kind": "interp", "callable": True,
                                               "interp_of": (args[0], args[1], kws.get("axis"))})
-    I.emit("interp1d", e, x=args[0], y=args[1], axis=kws.get("axis"))
+    I.emit("interp1d", e, x=args[0], y=args[1], axis=kws.get("axis"), assume_sorted=kws.get("assume_sorted"))
     return out
 
 
